@@ -28,6 +28,8 @@ VAL_SRC: Dict[str, List[str]] = {
     "none": ["None", "1"],
     "date": ["datetime.date(2020, 1, 1)", "datetime.date(2020, 1, 2)", "datetime.date(2020, 1, 3)"],
     "purepath": ['PurePosixPath("/x0")', 'PurePosixPath("/x1")', 'PurePosixPath("/x2")'],
+    # a tuple holding a list: in-process edits MUTATE the list in place (same tuple object)
+    "tuplelist": ['("v", [1])', '("v", [1, 2])'],
     "namedtuple": ["L.NT(1, 2)", "L.NT(1, 3)", "L.NT(2, 3)"],
     "dataclass": ["L.DC(1, 2)", "L.DC(1, 3)", "L.DC(2, 3)"],
 }
@@ -315,3 +317,10 @@ def write_tree(root: str, files: Dict[str, str]) -> bool:
 
 def var_value_src(shape: Shape, v: str, ver: int) -> str:
     return VAL_SRC[shape.vtype[v]][ver]
+
+
+def var_inplace_stmt(shape: Shape, v: str, ver: int):
+    """For variable types whose in-process edit is an in-place mutation: the statement, else None."""
+    if shape.vtype[v] == "tuplelist":
+        return "%s[1][:] = %s[1]" % (v, VAL_SRC["tuplelist"][ver])
+    return None
